@@ -1,7 +1,7 @@
 """Source of MANIFEST.json (bin/mkmanifest renders it). One entry per claimed property."""
 
 HOOK_COMMITS = ["f529e9d", "ae52c2c", "9fa6d07"]
-FIX_COMMITS = ["c71e8ce", "b266a7b", "3c8b2f5", "8a433c1", "8c9bd77", "b6b128e", "d4a32a0", "05b2e41", "7858fec", "23c0ca4", "3feca11", "c1f5fc8", "212cd41", "2e485b4", "6db0415", "949cfeb", "1ddf35d", "12cb9f2", "946de29", "bd5bc52", "907e0b2", "3fd5f50", "17977ea", "2e95b74", "7886f09"]
+FIX_COMMITS = ["c71e8ce", "b266a7b", "3c8b2f5", "8a433c1", "8c9bd77", "b6b128e", "d4a32a0", "05b2e41", "7858fec", "23c0ca4", "3feca11", "c1f5fc8", "212cd41", "2e485b4", "6db0415", "949cfeb", "1ddf35d", "12cb9f2", "946de29", "bd5bc52", "907e0b2", "3fd5f50", "17977ea", "2e95b74", "7886f09", "f000f49"]
 
 CHECKS = {
     "C19": dict(
